@@ -173,3 +173,9 @@ def run(chk):
                         return check_eq(terms['observations'], exp, 'observations')
                     chk.run("C05.R3", SITE[eq_type] + "->observations_loss_apply", cfg, go,
                             construct=f"observations[{eq_type}" + (",observed eq_params" if op else "") + "]")
+
+    # ---------------- R4 the solution slice that the normalisation and observation terms select is the one the caller specified
+    chk.rule("C05.R4", "the solution components entering the normalisation / observation terms are those given to the network "
+                       "factory: None = all outputs, an integer k (0 included) = component k only, a slice = itself", floor=6)
+    from .C10 import factory_slice_rule
+    factory_slice_rule(chk, "C05.R4")
